@@ -1,48 +1,148 @@
-"""C12 - directed measures: correspondence of lean/Hgxv/Model/C12.lean with
-hypergraphx.measures.directed.* and independent property oracles on the implementation."""
+"""C12 - directed measures: correspondence of lean/Hgxv/Model/C12.lean (+ C12Hist.lean: the full container model run
+through the same history) with hypergraphx.measures.directed.* and independent property oracles on the implementation."""
 from fractions import Fraction
 
 import hgxv
 
-RULE = ("random DirectedHypergraph instances (3-9 nodes from a sparse integer or string universe, 1-12 hyperedges with "
-        "disjoint non-empty sides, total size 2-6, reverse hyperedges and partial reversals injected), every bound "
-        "m in 2..7, every node, size filters none/2..6 and the equivalent order filters; a case is distinct by its "
-        "canonical hyperedge list; instances are reached through four kinds of histories (plain insertion, detours with removed temporary hyperedges and re-insertions, the original of a mutated copy, the copy of a mutated original); non-trivial when exact, strong and weak reciprocity are pairwise different for some size")
+RULE = ("random DirectedHypergraph instances (3-9 nodes, 1-12 proposed hyperedges with disjoint non-empty sides, total size "
+        "2-6, reverse hyperedges, partial reversals, NEAR-MISS reversals (one label replaced, preferably by a label with the "
+        "same hash) and multi-hyperedge reachability injected) over nine label universes (small ints with 0, unshared "
+        "ints, strings with '', strings / ints whose concatenations coincide, signed ints, ints equal mod 2**61-1, floats "
+        "mixed with ints of equal hash, tuples); every "
+        "hundredth instance with 20-36 nodes and 40-90 proposed hyperedges; every instance is reached through a HISTORY of public calls that is also run by the Lean container model: plain "
+        "insertion, detours with removed temporary hyperedges and re-insertions, the original of a mutated copy, the copy "
+        "of a mutated original, and random scripts (constructor with edge list, weighted / unweighted, clear, REJECTED "
+        "calls - wrong weight, absent hyperedge / node, partly failing batches - followed by the retry, remove_node with "
+        "both keep_edges values where shrunk hyperedges coincide with stored ones, copies mid-way); after every call the "
+        "listings are compared with a reference object and the degrees with the definition, at marked points and at the "
+        "end (for half of the instances once more after one hyperedge was replaced by its reverse in place) every bound m in 2..7 (end) or one bound (mid-way), every node, size filters none/1..7 and the order "
+        "filters 0..6; a case is distinct by its final canonical hyperedge list and node list; non-trivial when exact, "
+        "strong and weak reciprocity are pairwise different for some size")
 ASSUMPTIONS = ["hyperedges have disjoint non-empty source and target sets (the property's quantifier)",
-               "labels are mapped to their rank in sorted order before they reach the model"]
+               "labels of one hypergraph are mutually comparable and pairwise unequal (1 / 1.0 / True never together, no "
+               "nan, no -0.0 next to 0); they are mapped to their rank in sorted order before they reach the model",
+               "weights are multiples of 1/4 (the container model counts quanta)"]
 TRUSTED = ["float division c/t of two ints is the correctly rounded quotient (compared with float(Fraction(c, t)))"]
 
+P61 = (1 << 61) - 1
+WRONG_W = [2, 0.5, 2.5, 0, 3, -1]          # rejected by a hypergraph that is not weighted
+GOOD_W = [None, 1, 2, 0.5, 3, 1.5, 1.0]
+ROUTES = ["plain", "detour", "copy", "copied", "script", "script", "script", "script"]
 
-def gen(rng):
-    n = rng.randint(3, 9)
-    if rng.random() < 0.3:
-        labels = sorted(rng.sample([chr(97 + i) * rng.randint(1, 2) for i in range(20)] + ["E1", "N0"], n))
-    else:
-        labels = sorted(rng.sample(range(0, 40), n))
-        if rng.random() < 0.5:
-            labels = [x * 1009 + 300 for x in labels]   # ints that CPython does not share: equality is not identity
+
+# ---------------------------------------------------------------------------------------------------------------
+# labels
+
+def universe(rng):
+    r = rng.random()
+    if r < 0.08:
+        return "str", [chr(97 + i) * k for i in range(20) for k in (1, 2)] + ["E1", "N0", ""]
+    if r < 0.18:     # labels whose concatenations through a usual separator coincide: keys built from text
+        c = rng.choice("___,,-- :|/;.")
+        return "strkeys", ["", "a", c, "a" + c, c + "a", c + c, "aa", "a" + c + "a", c + "a" + c, "a" + c + c]
+    if r < 0.25:
+        return "concat", [1, 2, 11, 12, 21, 22, 111, 112, 121, 122, 211, 212]
+    if r < 0.33:
+        return "small", list(range(0, 40))
+    if r < 0.42:
+        return "sparse", [x * 1009 + 300 for x in range(40)]    # ints CPython does not share: equality is not identity
+    if r < 0.60:
+        return "signed", list(range(-9, 10))                     # hash(-1) == hash(-2)
+    if r < 0.78:                                                 # hash(x + k * (2**61 - 1)) == hash(x)
+        return "modp", [b + j * P61 for b in (0, 1, 2, 3) for j in (0, 1, 2)] + \
+                       [-(b + j * P61) for b in (1, 2, 3) for j in (0, 1, 2)]
+    if r < 0.9:                                                  # hash(0.5) == hash(2**60), hash(1.5) == hash(2**60 + 1)
+        return "float", [0.5, 1.5, -0.5, 2.25, -3.75, 7.0, -8.0, 1e300, -1e300, 2.0 ** 70, 1 << 60, (1 << 60) + 1,
+                         -(1 << 60), 3, 4, -1, -2, 10, 1e-5, 6.5]
+    return "tuple", [(a, b) for a in (-2, -1, 0, 1) for b in (-2, -1, 5)]   # tuple hashes depend on item hashes only
+
+
+def twins(x, among):
+    return [y for y in among if y != x and hash(y) == hash(x)]
+
+
+def text_twins(j, i, labels):
+    """pairs (a, b) != (j, i) of labels that read like (j, i) when joined by some character occurring in the labels"""
+    seps = {""} | {ch for x in labels if isinstance(x, str) for ch in x}
+    return [(a, b) for a in labels for b in labels if a != b and (a, b) != (j, i)
+            and any(str(a) + c + str(b) == str(j) + c + str(i) for c in seps)]
+
+
+def pick(rng, kind, pool, n):
+    """n labels; in the universes with (deterministic) hash collisions colliding labels tend to come together"""
+    cand = list(pool)
+    rng.shuffle(cand)
+    if kind in ("str", "strkeys"):   # string hashes change from process to process: no use of them in the generator
+        return cand[:n]
+    out = []
+    for x in cand:
+        if len(out) >= n:
+            break
+        if x in out:
+            continue
+        out.append(x)
+        for y in twins(x, pool):
+            if y not in out and len(out) < n and rng.random() < 0.7:
+                out.append(y)
+    return out
+
+
+def other(rng, kind, x, labels, avoid):
+    """another label than x outside `avoid` - a hash twin when there is one"""
+    free = [y for y in labels if y != x and y not in avoid]
+    tw = twins(x, free) if kind not in ("str", "strkeys") else []
+    if tw and rng.random() < 0.8:
+        return rng.choice(tw)
+    return rng.choice(free) if free else None
+
+
+def gen(rng, big=False):
+    kind, pool = universe(rng)
+    n = rng.randint(3, 9) if kind != "strkeys" else rng.randint(6, 9)
+    if big:                      # size is a dimension: a few instances with many nodes and hyperedges
+        n = max(n, min(len(pool) - 4, rng.randint(20, 36)))
+    chosen = pick(rng, kind, pool, min(len(pool), n + 4))
+    labels, extra = sorted(chosen[:n]), chosen[n:]
+    n = len(labels)
     edges = []
-    for _ in range(rng.randint(1, 12)):
+    for _ in range(rng.randint(1, 12) if not big else rng.randint(40, 90)):
         size = min(n, rng.choice([2, 2, 2, 3, 3, 4, 5, 6]))
         nodes = rng.sample(labels, size)
         k = rng.randint(1, size - 1)
         e = (tuple(nodes[:k]), tuple(nodes[k:]))
         edges.append(e)
         r = rng.random()
-        if r < 0.25:
+        if r < 0.22:
             edges.append((e[1], e[0]))
-        elif r < 0.5:
+        elif r < 0.42:
             # partial reversal: one target -> one source (+ maybe a third node)
             t, s = rng.choice(e[1]), rng.choice(e[0])
-            extra = [x for x in labels if x not in (t, s)]
-            tgt = (s,) + ((rng.choice(extra),) if extra and rng.random() < 0.4 else ())
+            more = [x for x in labels if x not in (t, s)]
+            tgt = (s,) + ((rng.choice(more),) if more and rng.random() < 0.4 else ())
             edges.append(((t,), tgt))
-        elif r < 0.6 and len(e[1]) >= 1:
+        elif r < 0.52 and len(e[1]) >= 1:
             # reach all sources from the targets through several hyperedges
             for s in e[0]:
                 edges.append(((rng.choice(e[1]),), (s,)))
+        elif r < 0.72:
+            # near miss: the reverse (of the hyperedge or of one pair) with ONE label replaced by another label
+            tw = text_twins(rng.choice(e[1]), rng.choice(e[0]), labels) if kind in ("strkeys", "concat") else []
+            if tw and rng.random() < 0.6:
+                a, b = rng.choice(tw)          # ... or a pair that READS like the reversed pair
+                edges.append(((a,), (b,)))
+                continue
+            if rng.random() < 0.5:
+                S, T = list(e[1]), list(e[0])
+            else:
+                S, T = [rng.choice(e[1])], [rng.choice(e[0])]
+            side = S if rng.random() < 0.5 else T
+            i = rng.randrange(len(side))
+            y = other(rng, kind, side[i], labels, S + T)
+            if y is not None:
+                side[i] = y
+                edges.append((tuple(S), tuple(T)))
     iso = [x for x in labels if rng.random() < 0.15]
-    return labels, edges, iso
+    return kind, labels, extra, edges, iso
 
 
 def fresh(x):
@@ -51,118 +151,474 @@ def fresh(x):
         return x
     if isinstance(x, int):
         return int(str(x))
+    if isinstance(x, float):
+        return float(repr(x))
     if isinstance(x, str):
         return ''.join(list(x))
+    if isinstance(x, tuple):
+        return tuple(fresh(y) for y in x)
     return x
 
 
-def fresh_edge(e):
-    return (tuple(fresh(x) for x in e[0]), tuple(fresh(x) for x in e[1]))
+def thaw(x):
+    """labels of a stored case: JSON turned tuples into lists"""
+    return tuple(thaw(y) for y in x) if isinstance(x, (list, tuple)) else x
 
 
 def canon(e):
     return (tuple(sorted(e[0])), tuple(sorted(e[1])))
 
 
+def esize(e):
+    return len(e[0]) + len(e[1])
+
+
+# ---------------------------------------------------------------------------------------------------------------
+# the property's words
+
 def oracle_tables(E, m):
     """the three reciprocities straight from the property's words, as exact fractions"""
-    B = [e for e in E if 2 <= len(e[0]) + len(e[1]) <= m]
-    Bs = set(B)
+    B = [e for e in E if 2 <= esize(e) <= m]
     out = {}
     for name in ("exact", "strong", "weak"):
         tab = {}
         for k in range(2, m + 1):
-            Ek = [e for e in B if len(e[0]) + len(e[1]) == k]
+            Ek = [e for e in B if esize(e) == k]
             c = 0
             for (S, T) in Ek:
                 if name == "exact":
-                    ok = (T, S) in Bs
+                    ok = any(f[0] == T and f[1] == S for f in B)
                 elif name == "strong":
-                    ok = all(any(t in f[0] and s in f[1] for f in B for t in T) for s in S)
+                    ok = all(any(any(t == a for a in f[0]) and any(s == b for b in f[1]) for f in B for t in T) for s in S)
                 else:
-                    ok = any(j in f[0] and i in f[1] for f in B for i in S for j in T)
+                    ok = any(any(j == a for a in f[0]) and any(i == b for b in f[1]) for f in B for i in S for j in T)
                 c += ok
             tab[k] = Fraction(c, len(Ek)) if Ek else Fraction(0)
         out[name] = tab
     return out
 
 
-def check_one(ctx, drv, labels, edges, iso, route="plain"):
+def has(x, side):
+    return any(x == y for y in side)     # equality only: no hashing in the oracles
+
+
+def degree_def(E, x, side, size):
+    return sum(1 for e in E if has(x, e[side]) and (size is None or esize(e) == size))
+
+
+# ---------------------------------------------------------------------------------------------------------------
+# reference object: what a history of public calls leaves behind (lists and equality only)
+
+class Ref:
+    def __init__(self, weighted):
+        self.weighted, self.nodes, self.edges, self.w = weighted, [], [], []
+
+    def copy(self):
+        r = Ref(self.weighted)
+        r.nodes, r.edges, r.w = list(self.nodes), list(self.edges), list(self.w)
+        return r
+
+    def add_node(self, x):
+        if not has(x, self.nodes):
+            self.nodes.append(x)
+
+    def add_edge(self, e, w):
+        if not self.weighted and w is not None and w != 1:
+            return False
+        k = canon(e)
+        if k in self.edges:
+            if self.weighted:
+                self.w[self.edges.index(k)] += 1 if w is None else w
+        else:
+            self.edges.append(k)
+            self.w.append((1 if w is None else w) if self.weighted else 1)
+            for x in k[0] + k[1]:
+                self.add_node(x)
+        return True
+
+    def remove_edge(self, e):
+        k = canon(e)
+        if k not in self.edges:
+            return False
+        i = self.edges.index(k)
+        del self.edges[i], self.w[i]
+        return True
+
+    def remove_node(self, x, keep):
+        if not has(x, self.nodes):
+            return False
+        inc = [k for k in self.edges if has(x, k[0])] + [k for k in self.edges if has(x, k[1])]
+        if keep:
+            for k in inc:
+                s, t = tuple(y for y in k[0] if y != x), tuple(y for y in k[1] if y != x)
+                if s and t:
+                    self.add_edge((s, t), self.w[self.edges.index(k)])
+        for k in inc:
+            self.remove_edge(k)
+        self.nodes = [y for y in self.nodes if y != x]
+        return True
+
+    def apply(self, op):
+        kind, a = op[1], op[2:]
+        if kind == "node":
+            self.add_node(a[0])
+        elif kind == "nodes":
+            for x in a[0]:
+                self.add_node(x)
+        elif kind == "add":
+            return self.add_edge((a[0], a[1]), a[2])
+        elif kind == "adds":
+            if a[1] is not None and len(a[1]) != len(a[0]):
+                return False
+            for i, e in enumerate(a[0]):
+                if not self.add_edge(e, a[1][i] if a[1] else None):
+                    return False
+        elif kind == "rm":
+            return self.remove_edge((a[0], a[1]))
+        elif kind == "rms":
+            return all(self.remove_edge(e) for e in a[0])        # stops at the first absent one
+        elif kind == "rmnode":
+            return self.remove_node(a[0], a[1])
+        elif kind == "rmnodes":
+            return all(self.remove_node(x, a[1]) for x in a[0])
+        elif kind == "setw":
+            if not self.weighted and a[2] != 1:
+                return False
+            k = canon((a[0], a[1]))
+            if k not in self.edges:
+                return False
+            self.w[self.edges.index(k)] = a[2]
+        elif kind == "clear":
+            self.nodes, self.edges, self.w = [], [], []
+        return True
+
+
+# ---------------------------------------------------------------------------------------------------------------
+# histories
+
+def pairs(es):
+    return [[list(e[0]), list(e[1])] for e in es]
+
+
+def legacy_script(route, labels, extra, edges, iso):
+    """the four fixed histories of the first rounds, as operation lists; returns (ops, slot of the instance)"""
+    seen, uniq = set(), []
+    for e in edges:   # the generator may propose the same hyperedge twice (in another node order): removals use each once
+        if canon(e) not in seen:
+            seen.add(canon(e))
+            uniq.append(e)
+    ops = [[0, "new", None, None]] + [[0, "node", x] for x in iso]
+    add = lambda s, e: ops.append([s, "add", list(e[0]), list(e[1]), None])
+    rm = lambda s, e: ops.append([s, "rm", list(e[0]), list(e[1])])
+    if route == "plain" or len(uniq) < 2:
+        for e in edges:
+            add(0, e)
+        return ops, 0
+    if route == "detour":
+        # temporary hyperedges of another size inserted first and removed again (internal ids get gaps), the first
+        # half removed and re-inserted after the rest (listing order changes, ids are not dense)
+        temps = [e for e in [((labels[0],), (labels[1],)), ((labels[0],), tuple(labels[1:3]))]
+                 if len(set(e[0]) | set(e[1])) == esize(e) and canon(e) not in seen]
+        half = uniq[: len(uniq) // 2]
+        for t in temps:
+            add(0, t)
+        for e in half:
+            add(0, e)
+        for t in temps:
+            rm(0, t)
+        for e in edges:
+            if canon(e) not in {canon(f) for f in half}:
+                add(0, e)
+        for e in half[:2]:
+            rm(0, e)
+        for e in half[:2]:
+            add(0, e)
+        return ops, 0
+    for e in edges:
+        add(0, e)
+    ops.append(["copy", 0, 1])
+    # "copy": the instance is the ORIGINAL (slot 0) of a copy that is mutated afterwards;
+    # "copied": the instance is the COPY (slot 1) whose original is mutated afterwards
+    other_slot, mine = (1, 0) if route == "copy" else (0, 1)
+    for e in uniq[:2]:
+        rm(other_slot, e)
+    add(other_slot, ((labels[-1],), (labels[0],)))
+    if extra:
+        ops.append([other_slot, "node", extra[-1]])
+    return ops, mine
+
+
+def gen_script(rng, labels, extra, edges, iso, weighted):
+    """a random history whose successful calls insert the proposed hyperedges - directly, or as a larger hyperedge
+    through a temporary node that remove_node(keep_edges=True) takes out again (so that shrunk hyperedges coincide
+    with stored ones) - interleaved with calls that must be rejected and their retries, removals, copies"""
+    temps, absent = extra[:2], extra[2:] or extra[:1] or [labels[0]]
+    ops, s, used = [], 0, []
+    goodw = lambda: rng.choice(GOOD_W) if weighted else rng.choice([None, None, None, 1, 1.0])
+
+    def add(e, w="good"):
+        ops.append([s, "add", list(e[0]), list(e[1]), goodw() if w == "good" else w])
+
+    def rm(e):
+        ops.append([s, "rm", list(e[0]), list(e[1])])
+
+    rest = list(edges)
+    if rng.random() < 0.25:
+        k = rng.randint(1, len(edges))
+        ws = [rng.choice(GOOD_W[1:]) for _ in range(k)] if weighted and rng.random() < 0.7 else None
+        ops.append([0, "new", pairs(edges[:k]), ws])
+        rest = edges[k:]
+    else:
+        ops.append([0, "new", None, None])
+    if iso:
+        if rng.random() < 0.5:
+            ops.append([0, "nodes", list(iso)])
+        else:
+            ops.extend([0, "node", x] for x in iso)
+    if rng.random() < 0.1 and len(labels) >= 3:
+        add((tuple(labels[:2]), (labels[2],)))
+        ops.append([0, "clear"])
+    for e in rest:
+        r = rng.random()
+        if r < 0.4:
+            add(e)
+        elif r < 0.62 and temps and esize(e) <= 5:
+            z = rng.choice(temps)
+            big = (e[0] + (z,), e[1]) if rng.random() < 0.5 else (e[0], e[1] + (z,))
+            q = rng.random()
+            if q < 0.3:
+                add(e), add(big)
+            elif q < 0.6:
+                add(big), add(e)
+            else:
+                add(big)
+            if z not in used:
+                used.append(z)
+        elif r < 0.8:
+            if not weighted and rng.random() < 0.7:
+                add(e, rng.choice(WRONG_W))                      # rejected: wrong weight
+            else:
+                rm(e)                                            # rejected when absent
+            if rng.random() < 0.3:
+                ops.append([s, "obs", rng.randint(2, 7), rng.choice([None, 2, 3])])
+            if rng.random() < 0.8:
+                add(e)                                           # the retry
+        elif r < 0.9:
+            add(e), rm(e)
+            if rng.random() < 0.6:
+                add(e)
+        else:
+            add(e)
+            ops.append([s, "setw", list(e[0]), list(e[1]), rng.choice(GOOD_W[1:] if weighted else WRONG_W + [1])])
+        q = rng.random()
+        if q < 0.05:
+            ops.append([s, "rmnode", rng.choice(absent), rng.random() < 0.5])
+        elif q < 0.10:
+            ops.append([s, "probe", rng.choice(absent + labels)])
+        elif q < 0.15:
+            a, b = rng.choice(edges), rng.choice(edges)
+            ops.append([s, "rms", pairs([a, ((absent[0],), (labels[0],)), b])])
+        elif q < 0.19:
+            ops.append([s, "adds", pairs([rng.choice(edges), e]),
+                        [rng.choice(GOOD_W[1:]) for _ in range(rng.choice([1, 2, 2]))] if weighted else None])
+        elif q < 0.25:
+            ops.append([s, "obs", rng.randint(2, 7), rng.choice([None, 2, 3, 4])])
+        elif q < 0.29:
+            ops.append(["copy", s, s + 1])
+            stay = rng.random() < 0.5          # go on with the original, the copy is mutated - or the other way round
+            scrap = s + 1 if stay else s
+            ops.append([scrap, "rmnode", rng.choice(labels), rng.random() < 0.5])
+            ops.append([scrap, "add", [labels[-1]], [labels[0]], None])
+            s = s if stay else s + 1
+        elif q < 0.32:
+            ops.append([s, "rmnodes", [rng.choice(labels), rng.choice(absent), rng.choice(labels)], rng.random() < 0.5])
+    rng.shuffle(used)
+    for z in used:
+        if rng.random() < 0.9:
+            ops.append([s, "rmnode", z, rng.random() < 0.75])
+    if rng.random() < 0.35:
+        ops.append([s, "rmnode", rng.choice(labels), rng.random() < 0.6])
+    return ops, s
+
+
+def thaw_op(op):
+    op = list(op)
+    k = op[1] if op[0] != "copy" else "copy"
+    E = lambda e: [[thaw(x) for x in e[0]], [thaw(x) for x in e[1]]]
+    if k in ("node", "probe"):
+        op[2] = thaw(op[2])
+    elif k == "nodes":
+        op[2] = [thaw(x) for x in op[2]]
+    elif k in ("add", "rm", "setw"):
+        op[2], op[3] = E((op[2], op[3]))
+    elif k in ("adds", "rms", "new"):
+        op[2] = None if op[2] is None else [E(e) for e in op[2]]
+    elif k == "rmnode":
+        op[2] = thaw(op[2])
+    elif k == "rmnodes":
+        op[2] = [thaw(x) for x in op[2]]
+    return op
+
+
+def quanta(w):
+    if w is None:
+        return "N"
+    q = Fraction(w) * 4
+    assert q.denominator == 1
+    return str(q.numerator)
+
+
+def model_line(op, rank):
+    """the same call for the Lean container model"""
+    R = lambda xs: hgxv.enc_list([rank[x] for x in xs])
+    RS = lambda es, i: hgxv.enc_lists([[rank[x] for x in e[i]] for e in es])
+    if op[0] == "copy":
+        return f"hcopy {op[1]} {op[2]}"
+    s, k, a = op[0], op[1], op[2:]
+    if k == "new":
+        return f"hnew {s} {int(a[2])} " + ("N N" if a[0] is None else f"{RS(a[0], 0)} {RS(a[0], 1)}") + " " + \
+            ("N" if a[1] is None else ",".join(quanta(w) for w in a[1]) or "-")
+    if k == "node":
+        return f"hnode {s} {rank[a[0]]}"
+    if k == "nodes":
+        return f"hnodes {s} {R(a[0])}"
+    if k == "add":
+        return f"hadd {s} {R(a[0])} {R(a[1])} {quanta(a[2])}"
+    if k == "adds":
+        return f"hadds {s} {RS(a[0], 0)} {RS(a[0], 1)} " + ("N" if a[1] is None else ",".join(quanta(w) for w in a[1]) or "-")
+    if k == "rm":
+        return f"hrm {s} {R(a[0])} {R(a[1])}"
+    if k == "rms":
+        return f"hrms {s} {RS(a[0], 0)} {RS(a[0], 1)}"
+    if k == "rmnode":
+        return f"hrmnode {s} {rank[a[0]]} {int(bool(a[1]))}"
+    if k == "rmnodes":
+        return f"hrmnodes {s} {R(a[0])} {int(bool(a[1]))}"
+    if k == "setw":
+        return f"hsetw {s} {R(a[0])} {R(a[1])} {quanta(a[2])}"
+    if k == "clear":
+        return f"hclear {s}"
+    return None
+
+
+def impl_call(H, op, weighted):
+    """the call on the implementation, every label a fresh object; True = returned, False = raised"""
     from hypergraphx import DirectedHypergraph
+    from hypergraphx.measures.directed import in_degree, out_degree, in_degree_sequence
+    F = lambda xs: tuple(fresh(x) for x in xs)
+    FE = lambda e: (F(e[0]), F(e[1]))
+    try:
+        if op[0] == "copy":
+            H[op[2]] = H[op[1]].copy()
+            return True
+        s, k, a = op[0], op[1], op[2:]
+        if k == "new":
+            if a[0] is None:
+                H[s] = DirectedHypergraph(weighted=weighted)
+            else:
+                H[s] = DirectedHypergraph(edge_list=[FE(e) for e in a[0]], weighted=weighted,
+                                          weights=None if a[1] is None else list(a[1]))
+            return True
+        h = H[s]
+        if k == "node":
+            h.add_node(fresh(a[0]))
+        elif k == "nodes":
+            h.add_nodes([fresh(x) for x in a[0]])
+        elif k == "add":
+            if a[2] is None:
+                h.add_edge(FE(a))
+            else:
+                h.add_edge(FE(a), weight=a[2])
+        elif k == "adds":
+            h.add_edges([FE(e) for e in a[0]], weights=None if a[1] is None else list(a[1]))
+        elif k == "rm":
+            h.remove_edge(FE(a))
+        elif k == "rms":
+            h.remove_edges([FE(e) for e in a[0]])
+        elif k == "rmnode":
+            h.remove_node(fresh(a[0]), keep_edges=bool(a[1]))
+        elif k == "rmnodes":
+            h.remove_nodes([fresh(x) for x in a[0]], keep_edges=bool(a[1]))
+        elif k == "setw":
+            h.set_weight(FE(a), a[2])
+        elif k == "clear":
+            h.clear()
+        elif k == "probe":
+            # queries that may be refused (node not there, order and size together): whatever they answer,
+            # the hypergraph stays what it was
+            for q in (lambda: in_degree(h, fresh(a[0])), lambda: out_degree(h, fresh(a[0]), size=2),
+                      lambda: h.get_source_edges(fresh(a[0]), order=1, size=2),
+                      lambda: h.get_target_edges(fresh(a[0])), lambda: in_degree_sequence(h, order=1, size=2)):
+                try:
+                    q()
+                except Exception:
+                    pass
+        return True
+    except Exception:
+        return False
+
+
+def state_check(h, ref):
+    """after a call: listings = those of the reference object, unfiltered degrees = the definition; None = fine"""
+    from hypergraphx.measures.directed import in_degree_sequence, out_degree_sequence
+    try:
+        E = [canon(e) for e in h.get_edges()]
+        nodes = list(h.get_nodes())
+        if sorted(E, key=repr) != sorted(ref.edges, key=repr) or len(E) != len(ref.edges):
+            return f"get_edges() lists {E}, the calls made so far leave {ref.edges}"
+        if sorted(nodes, key=repr) != sorted(ref.nodes, key=repr):
+            return f"get_nodes() lists {nodes}, the calls made so far leave {ref.nodes}"
+        for which, seqf, side in (("in", in_degree_sequence, 0), ("out", out_degree_sequence, 1)):
+            seq = seqf(h)
+            for x in nodes:
+                if seq.get(x) != degree_def(E, x, side, None) or len(seq) != len(nodes):
+                    return (f"{which}_degree_sequence gives {seq.get(x)} for node {x!r}, get_edges() has "
+                            f"{degree_def(E, x, side, None)} hyperedges with it on that side")
+    except Exception as ex:
+        return f"the listings / degree sequences raised {type(ex).__name__}: {ex}"
+    return None
+
+
+# ---------------------------------------------------------------------------------------------------------------
+# observation of one object: the property's oracles + the lines for the model
+
+def show_seq(seq, nodes, rank):
+    return ",".join(f"{rank[x]}:{seq.get(x)}" for x in nodes) if nodes else "-"
+
+
+def observe(ctx, case, h, ref, slot, rank, lines, expect, bounds, filters, full):
+    """returns (E, nodes, nontrivial) or None when the object is unusable"""
     from hypergraphx.measures.directed import (exact_reciprocity, strong_reciprocity, weak_reciprocity,
                                                hyperedge_signature_vector, in_degree, out_degree,
                                                in_degree_sequence, out_degree_sequence)
-    case = {"labels": labels, "edges": edges, "isolated": iso, "route": route}
-    h = DirectedHypergraph()
-    for x in iso:
-        h.add_node(x)
-    # the instance is reached through one of several histories: every DirectedHypergraph a user can hold is in the
-    # property's quantifier, not only freshly built ones
-    seen_c, uniq = set(), []
-    for e in edges:   # the generator may propose the same hyperedge twice (in another node order): removals use each once
-        if canon(e) not in seen_c:
-            seen_c.add(canon(e))
-            uniq.append(e)
     try:
-        if route == "plain" or len(uniq) < 2:
-            for e in edges:
-                h.add_edge(fresh_edge(e))
-        elif route == "detour":
-            # temporary hyperedges of another size inserted first and removed again (internal ids get gaps), the first
-            # half removed and re-inserted after the rest (listing order changes, ids are not dense)
-            temps = [e for e in [((labels[0],), (labels[1],)), ((labels[0],), tuple(labels[1:3]))]
-                     if len(set(e[0]) | set(e[1])) == len(e[0]) + len(e[1]) and canon(e) not in {canon(f) for f in edges}]
-            for t in temps:
-                h.add_edge(t)
-            half = uniq[: len(uniq) // 2]
-            for e in half:
-                h.add_edge(e)
-            for t in temps:
-                h.remove_edge(t)
-            for e in edges:
-                if canon(e) not in {canon(f) for f in half}:
-                    h.add_edge(e)
-            for e in half[:2]:
-                h.remove_edge(fresh_edge(e))
-            for e in half[:2]:
-                h.add_edge(fresh_edge(e))
-        elif route == "copy":
-            # the instance is the ORIGINAL of a copy that was mutated afterwards (and must not notice)
-            for e in edges:
-                h.add_edge(e)
-            c = h.copy()
-            for e in uniq[:2]:
-                c.remove_edge(e)
-            c.add_edge(((labels[-1],), (labels[0],)))
-            c.add_node("zz-copy-only")
-        elif route == "copied":
-            # the instance is a COPY whose original was mutated afterwards
-            o = DirectedHypergraph()
-            for x in iso:
-                o.add_node(x)
-            for e in edges:
-                o.add_edge(e)
-            h = o.copy()
-            for e in uniq[:2]:
-                o.remove_edge(e)
-            o.add_edge(((labels[-1],), (labels[0],)))
+        raw, raw_nodes = h.get_edges(), h.get_nodes()
+        E = [canon(e) for e in raw]
+        nodes = list(raw_nodes)
     except Exception as ex:
-        ctx.violation(case, f"building the hypergraph through the '{route}' history raised {type(ex).__name__}: {ex}")
-        return
-    E = [canon(e) for e in h.get_edges()]
-    if sorted(E) != sorted({canon(e) for e in edges}):
-        ctx.violation(case, f"after the '{route}' history get_edges() lists {sorted(E)}, expected the inserted hyperedges")
-        return
-    nodes = list(h.get_nodes())
-    rank = {x: i for i, x in enumerate(sorted(set(labels)))}
-    key = repr((sorted(E), sorted(nodes, key=repr)))
-    lines = ["load " + hgxv.enc_lists([[rank[x] for x in e[0]] for e in E]) + " "
-             + hgxv.enc_lists([[rank[x] for x in e[1]] for e in E]) + " " + hgxv.enc_list([rank[x] for x in nodes])]
-    expect = ["ok"]
+        ctx.violation(case, f"get_edges() / get_nodes() raised {type(ex).__name__}: {ex}")
+        return None
+    bad = state_check(h, ref)
+    if bad:
+        ctx.violation(case, bad)
+        return None
+    if any(x not in rank for e in E for x in e[0] + e[1]) or any(x not in rank for x in nodes):
+        ctx.violation(case, f"labels that were never inserted are listed: {E} / {nodes}")
+        return None
+    lines.append(f"hload {slot}")
+    expect.append(("plain", hgxv.enc_lists([[rank[x] for x in e[0]] for e in E]) + " "
+                   + hgxv.enc_lists([[rank[x] for x in e[1]] for e in E]) + " " + hgxv.enc_list([rank[x] for x in nodes])))
     nontrivial = False
-    for m in range(2, 8):
+    again = []
+    for m in bounds:
         orc = oracle_tables(E, m)
-        got = {"exact": exact_reciprocity(h, m), "strong": strong_reciprocity(h, m), "weak": weak_reciprocity(h, m)}
+        got = {}
+        for name, f in (("exact", exact_reciprocity), ("strong", strong_reciprocity), ("weak", weak_reciprocity)):
+            try:
+                got[name] = f(h, m)
+            except Exception as ex:
+                ctx.violation({**case, "m": m}, f"{name}_reciprocity raised {type(ex).__name__}: {ex}")
+                got[name] = {}
         for name in ("exact", "strong", "weak"):
             tab = got[name]
             if sorted(tab) != list(range(2, m + 1)):
@@ -177,26 +633,37 @@ def check_one(ctx, drv, labels, edges, iso, route="plain"):
                                   f"{name}_reciprocity[{k}] = {v}, definition gives {orc[name][k]}")
             lines.append(f"{name} {m}")
             # implementation answer rendered exactly when it is the rounded quotient of the oracle's fraction
-            expect.append(("tab", name, m, tab))
+            expect.append(("tab", name, m, dict(tab)))
+            again.append((lambda name=name, m=m, f={"exact": exact_reciprocity, "strong": strong_reciprocity,
+                                                    "weak": weak_reciprocity}[name]: f(h, m), dict(tab), tab))
         for k in range(2, m + 1):
             ex, st, wk = got["exact"].get(k, 0), got["strong"].get(k, 0), got["weak"].get(k, 0)
             if not (ex <= st <= wk):
                 ctx.violation({**case, "m": m, "size": k}, f"exact <= strong <= weak fails at size {k}: {ex}, {st}, {wk}")
             if ex < st < wk:
                 nontrivial = True
-        sig = hyperedge_signature_vector(h, m)
-        want = [0] * ((m - 1) * (m - 1))
-        for (S, T) in E:
-            if len(S) + len(T) <= m:
-                want[(len(S) - 1) * (m - 1) + len(T) - 1] += 1
-        if [int(x) for x in sig] != want or any(float(x) != int(x) for x in sig):
-            ctx.violation({**case, "m": m}, f"signature {list(sig)} != per-shape counts {want}")
-        if int(sum(sig)) != sum(1 for e in E if len(e[0]) + len(e[1]) <= m):
-            ctx.violation({**case, "m": m}, "signature cells do not sum to the number of hyperedges within the bound")
-        lines.append(f"sig {m}")
-        expect.append(("plain", hgxv.enc_list([int(x) for x in sig])))
+        sigs = [(m, (m,))]
+        if full and E and m == max(esize(e) for e in E):
+            sigs.append((m, ()))               # the documented default bound: the largest size
+        for mm, args in sigs:
+            try:
+                sig = hyperedge_signature_vector(h, *args)
+            except Exception as ex:
+                ctx.violation({**case, "m": mm}, f"hyperedge_signature_vector{args} raised {type(ex).__name__}: {ex}")
+                continue
+            want = [0] * ((mm - 1) * (mm - 1))
+            for (S, T) in E:
+                if len(S) + len(T) <= mm:
+                    want[(len(S) - 1) * (mm - 1) + len(T) - 1] += 1
+            if len(sig) != len(want) or [int(x) for x in sig] != want or any(float(x) != int(x) for x in sig):
+                ctx.violation({**case, "m": mm, "default_bound": not args}, f"signature {list(sig)} != per-shape counts {want}")
+            if int(sum(sig)) != sum(1 for e in E if esize(e) <= mm):
+                ctx.violation({**case, "m": mm}, "signature cells do not sum to the number of hyperedges within the bound")
+            if args:
+                lines.append(f"sig {mm}")
+                expect.append(("plain", hgxv.enc_list([int(x) for x in sig])))
+                again.append((lambda mm=mm: [int(x) for x in hyperedge_signature_vector(h, mm)], [int(x) for x in sig], sig))
     # every filter value on its own: size=k and order=k-1 must both mean "total size k" (order=0 included)
-    filters = [(None, {})] + [(k, {"size": k}) for k in range(1, 8)] + [(k + 1, {"order": k}) for k in range(0, 7)]
     for size, kw in filters:
         for which, seqf, onef, side in (("indeg", in_degree_sequence, in_degree, 0), ("outdeg", out_degree_sequence, out_degree, 1)):
             try:
@@ -208,45 +675,204 @@ def check_one(ctx, drv, labels, edges, iso, route="plain"):
             if sorted(seq, key=repr) != sorted(nodes, key=repr) or len(seq) != len(nodes):
                 ctx.violation({**case, "filter": kw}, f"{which} sequence does not list every node once")
             for x in nodes:
-                d = sum(1 for e in E if x in e[side] and (size is None or len(e[0]) + len(e[1]) == size))
+                d = degree_def(E, x, side, size)
                 if seq.get(x) != d or ones[x] != d:
                     ctx.violation({**case, "filter": kw, "node": x},
                                   f"{which}({x!r}, {kw}) = {seq.get(x)} / {ones[x]}, definition gives {d}")
             lines.append(f"{which} {-1 if size is None else size}")
-            expect.append(("plain", ",".join(f"{rank[x]}:{seq.get(x)}" for x in nodes) if nodes else "-"))
-    ctx.case(key, nontrivial, sample=case)
+            expect.append(("plain", show_seq(seq, nodes, rank)))
+            if not kw:
+                again.append((lambda seqf=seqf: dict(seqf(h)), dict(seq), seq))
+    # what is counted: the incident listings are the hyperedges of get_edges() with the node on that side
+    for size, kw in filters[:3] if full else filters[:1]:
+        for x in nodes:
+            try:
+                src = [canon(e) for e in h.get_source_edges(fresh(x), **kw)]
+                tgt = [canon(e) for e in h.get_target_edges(fresh(x), **kw)]
+                inc = [canon(e) for e in h.get_incident_edges(fresh(x), **kw)]
+            except Exception as ex:
+                ctx.violation({**case, "filter": kw, "node": x}, f"incident listings raised {type(ex).__name__}: {ex}")
+                break
+            ws = [e for e in E if has(x, e[0]) and (size is None or esize(e) == size)]
+            wt = [e for e in E if has(x, e[1]) and (size is None or esize(e) == size)]
+            if sorted(src, key=repr) != sorted(ws, key=repr) or sorted(tgt, key=repr) != sorted(wt, key=repr) \
+                    or sorted(inc, key=repr) != sorted(ws + wt, key=repr):
+                ctx.violation({**case, "filter": kw, "node": x},
+                              f"hyperedges listed for node {x!r} ({src} / {tgt} / {inc}) are not those of get_edges() "
+                              f"having it as a source / target ({ws} / {wt})")
+                break
+    # answers are values: spoil every returned object, ask again - same answers, same hypergraph
+    for ask, val, obj in again:
+        try:
+            if isinstance(obj, dict):
+                obj.clear()
+                obj["spoilt"] = -1
+            else:
+                obj[...] = 99
+        except Exception:
+            pass
+    try:
+        raw.append("spoilt"), raw_nodes.append("spoilt")
+    except Exception:
+        pass
+    for ask, val, obj in again[:: 1 if full else 2]:
+        try:
+            now = ask()
+        except Exception as ex:
+            now = f"{type(ex).__name__}: {ex}"
+        if now != val:
+            ctx.violation(case, f"the same query on the unchanged hypergraph answers {now} after {val}")
+            break
+    bad = state_check(h, ref)
+    if bad:
+        ctx.violation(case, "after the measures were evaluated: " + bad)
+    return E, nodes, nontrivial
+
+
+def ref_step(R, op, weighted):
+    """one call on the reference objects; True = accepted"""
+    if op[0] == "copy":
+        R[op[2]] = R[op[1]].copy()
+        return True
+    if op[1] == "new":
+        R[op[0]] = Ref(weighted)
+        return R[op[0]].apply([op[0], "adds", op[2], op[3]]) if op[2] is not None else True
+    return R[op[0]].apply(op)
+
+
+def with_swap(rng, ops, slot, weighted):
+    """after the full observation: replace one hyperedge IN PLACE so that the numbers of nodes and hyperedges (and the
+    sizes) stay what they were, and ask the SAME object again - answers depend on the current content only"""
+    R = {}
+    for op in ops:
+        if op[0] == "copy" or op[1] not in ("obs", "probe", "full"):
+            ref_step(R, op, weighted)
+    E = R[slot].edges
+    cand = [e for e in E if (e[1], e[0]) not in E]
+    tail = [[slot, "full"]]
+    if cand:
+        S, T = rng.choice(cand)
+        tail += [[slot, "rm", list(S), list(T)], [slot, "add", list(T), list(S), None],
+                 [slot, "obs", list(range(2, 8)), len(S) + len(T)]]
+    return ops + tail
+
+
+ALL_FILTERS = [(None, {})] + [(k, {"size": k}) for k in range(1, 8)] + [(k + 1, {"order": k}) for k in range(0, 7)]
+
+
+def check_one(ctx, drv, kind, labels, extra, edges, iso, route="plain", weighted=False, ops=None, slot=0):
+    case = {"universe": kind, "labels": labels, "extra": extra, "edges": edges, "isolated": iso, "route": route,
+            "weighted": weighted, "ops": ops, "slot": slot}
+    everything = list(labels) + [x for x in extra if x not in labels]
+    try:
+        rank = {x: i for i, x in enumerate(sorted(everything))}
+    except TypeError:
+        rank = {x: i for i, x in enumerate(everything)}
+    if len(rank) != len(everything):
+        return          # equal labels written differently: outside the assumptions
+    H, R = {}, {}
+    lines, expect = ["hreset"], ["ok"]
+    seen_before = len(ctx.violations)
+    failed = lambda: len(ctx.violations) > seen_before
+    def full():
+        res = observe(ctx, case, H[slot], R[slot], slot, rank, lines, expect, range(2, 8), ALL_FILTERS, True)
+        if res is not None:
+            E, nodes, nontrivial = res
+            ctx.case(repr((sorted(E, key=repr), sorted(nodes, key=repr))), nontrivial, sample=case)
+            ctx.count("route." + route)
+            ctx.count("universe." + kind)
+            ctx.count("weighted" if weighted else "unweighted")
+            ctx.count("calls", len(ops))
+            ctx.count("hyperedges.%s" % ("0" if not E else "1-9" if len(E) < 10 else "10-29" if len(E) < 30 else "30+"))
+
+    done_full = False
+    for i, op in enumerate(ops):
+        where = {**case, "failing_call": i, "call": op}
+        if op[0] != "copy" and op[1] == "full":
+            full()
+            done_full = True
+            if failed():
+                break
+            continue
+        if op[0] != "copy" and op[1] == "obs":
+            if op[0] in H:
+                observe(ctx, where, H[op[0]], R[op[0]], op[0], rank, lines, expect,
+                        op[2] if isinstance(op[2], list) else [op[2]],
+                        [(None, {})] + ([(op[3], {"size": op[3]}), (op[3], {"order": op[3] - 1})] if op[3] else []), False)
+            if failed():
+                break
+            continue
+        did = impl_call(H, op, weighted)
+        want = ref_step(R, op, weighted)
+        ml = model_line(op if op[0] == "copy" or op[1] != "new" else op[:4] + [weighted], rank)
+        if ml is not None:
+            lines.append(ml)
+            expect.append("ok" if did else "rej")
+        if did != want:
+            ctx.violation(where, f"call {i} {op} " + ("raised, it is a valid call" if want else
+                                                       "returned, it must be refused (and leave the hypergraph as it was)"))
+            break
+        for s in sorted(H):
+            bad = state_check(H[s], R[s])
+            if bad:
+                ctx.violation(where, f"after call {i} {op}" + (f" (object {s})" if len(H) > 1 else "") + ": " + bad)
+                break
+        if failed():
+            break
+    else:
+        if not done_full:
+            full()
     if drv is None:
         return
     ans = drv.batch(lines)
     for ln, a, ex in zip(lines, ans, expect):
-        if ex == "ok":
-            ok = a == "ok"
+        if isinstance(ex, str):
+            ok = a == ex
         elif ex[0] == "plain":
             ok = a == ex[1]
         else:
             _, name, m, tab = ex
             mt = {}
-            if a != "-":
-                for item in a.split(","):
-                    k, v = item.split(":")
-                    mt[int(k)] = hgxv.dec_num(v)
-            ok = sorted(mt) == sorted(tab) and all(float(Fraction(mt[k])) == float(tab[k]) for k in tab)
+            try:
+                if a != "-":
+                    for item in a.split(","):
+                        k, v = item.split(":")
+                        mt[int(k)] = hgxv.dec_num(v)
+                ok = sorted(mt) == sorted(tab) and all(float(Fraction(mt[k])) == float(tab[k]) for k in tab)
+            except (ValueError, TypeError):
+                ok = False
         if not ok:
             ctx.disagree({**case, "line": ln}, f"model answers {a!r} to {ln!r}, implementation gives {ex!r}")
+            break
 
 
 def run(ctx):
     drv = ctx.driver() if ctx.model_available else None
-    n = ctx.scale(150, 3000)
-    for _ in range(n):
-        labels, edges, iso = gen(ctx.rng)
-        check_one(ctx, drv, labels, edges, iso, ctx.rng.choice(["plain", "plain", "detour", "detour", "copy", "copied"]))
+    n = ctx.scale(300, 10000)
+    for it in range(n):
+        kind, labels, extra, edges, iso = gen(ctx.rng, big=it % 100 == 7)
+        route = ctx.rng.choice(ROUTES)
+        weighted = ctx.rng.random() < 0.3
+        if route == "script":
+            ops, slot = gen_script(ctx.rng, labels, extra, edges, iso, weighted)
+        else:
+            ops, slot = legacy_script(route, labels, extra, edges, iso)
+        if ctx.rng.random() < 0.5:
+            ops = with_swap(ctx.rng, ops, slot, weighted)
+        check_one(ctx, drv, kind, labels, extra, edges, iso, route, weighted, ops, slot)
         if ctx.too_many() or (ctx.time_left() is not None and ctx.time_left() < 5):
             break
 
 
 def replay(ctx, case):
     drv = ctx.driver() if ctx.model_available else None
-    labels = case["labels"]
-    edges = [(tuple(e[0]), tuple(e[1])) for e in case["edges"]]
-    check_one(ctx, drv, labels, edges, case.get("isolated", []), case.get("route", "plain"))
+    labels = [thaw(x) for x in case["labels"]]
+    extra = [thaw(x) for x in case.get("extra", [])]
+    edges = [(tuple(thaw(x) for x in e[0]), tuple(thaw(x) for x in e[1])) for e in case["edges"]]
+    iso = [thaw(x) for x in case.get("isolated", [])]
+    route = case.get("route", "plain")
+    if case.get("ops"):
+        ops, slot = [thaw_op(op) for op in case["ops"]], case.get("slot", 0)
+    else:
+        ops, slot = legacy_script(route if route != "script" else "plain", labels, extra, edges, iso)
+    check_one(ctx, drv, case.get("universe", "small"), labels, extra, edges, iso, route, bool(case.get("weighted")), ops, slot)
